@@ -5,7 +5,37 @@ pub enum IoError { Os(i32), Other, InvalidData }
 pub enum VhostUserHandlerError { MissingMemoryMapping, Other }
 pub type VhostUserHandlerResult<T> = core::result::Result<T, VhostUserHandlerError>;
 pub struct AddrMapping { pub vmm_addr: u64, pub size: u64, pub gpa_base: u64 }
-pub struct VhostUserHandler { pub mappings: Vec<AddrMapping> }
+// what the ring at one index is allowed to be told (pinned by the wrapper's precondition to the request's arguments)
+pub struct Expect { pub desc: u64, pub avail: u64, pub used: u64, pub used_idx: u16 }
+pub enum VirtQueError { Any }
+pub enum VhostUserError { InvalidParam, BackendInternalError, ReqHandlerError(IoError) }
+pub type VhostUserResult<T> = core::result::Result<T, VhostUserError>;
+// ring handle: VringT methods are &self (interior mutability in the real code); the stubs carry the ARGUMENT contract as a
+// precondition: a call with any other value fails to verify. That each call occurs is a scan obligation.
+pub struct VringStub { pub exp: Ghost<Expect> }
+impl VringStub {
+    #[verifier::external_body]
+    pub fn set_queue_info(&self, desc_table: u64, avail_ring: u64, used_ring: u64) -> (r: core::result::Result<(), VirtQueError>)
+        requires desc_table == self.exp@.desc, avail_ring == self.exp@.avail, used_ring == self.exp@.used
+    { unimplemented!() }
+    #[verifier::external_body]
+    pub fn queue_used_idx(&self) -> (r: core::result::Result<u16, VirtQueError>)
+        ensures r is Ok ==> r->Ok_0 == self.exp@.used_idx
+    { unimplemented!() }
+    #[verifier::external_body]
+    pub fn set_queue_next_used(&self, idx: u16) requires idx == self.exp@.used_idx { unimplemented!() }
+}
+pub struct VhostUserVringAddrFlags { pub bits: u32 }
+pub struct VhostUserHandler { pub mappings: Vec<AddrMapping>, pub vrings: Vec<VringStub> }
+// R6 targets
+pub fn vrings_get(v: &Vec<VringStub>, i: usize) -> (r: VhostUserResult<&VringStub>)
+    ensures (r is Ok) == (i < v@.len()), r is Ok ==> *r->Ok_0 == v@[i as int]
+{ if i < v.len() { Ok(&v[i]) } else { Err(VhostUserError::InvalidParam) } }
+pub fn wrap_handler_err(e: VhostUserHandlerError) -> (r: VhostUserError) { VhostUserError::ReqHandlerError(IoError::Other) }
+pub open spec fn is_translation(ms: Seq<AddrMapping>, va: u64, g: u64) -> bool {
+    exists|i: int| 0 <= i < ms.len() && contains_va(#[trigger] ms[i], va) && g == ms[i].gpa_base + (va - ms[i].vmm_addr)
+        && forall|j: int| 0 <= j < i ==> !contains_va(#[trigger] ms[j], va)
+}
 
 // representation invariant of the mapping table (established by set_mem_table / add_mem_region from regions that
 // passed the message validators: non-zero size, no 64-bit wrap of the user and guest ranges)
